@@ -50,7 +50,7 @@ var c10Keys = []string{
 	"p224", "p256", "p384", "p521", "ed25519", "dsa1024", "x25519",
 }
 
-var c10Mangles = []string{"", "", "", "", "truncate", "bitflip", "trailing", "empty", "garbage", "pemtype", "sshtype", "retag", "nopem", "b64pad", "long"}
+var c10Mangles = []string{"", "", "", "", "truncate", "bitflip", "trailing", "empty", "garbage", "pemtype", "sshtype", "retag", "nopem", "b64pad", "long", "certblob"}
 
 var c10KeyCache = struct {
 	sync.Mutex
@@ -282,6 +282,23 @@ func c10Check(c c10Case) *vResult {
 			return res
 		}
 		switch c.Mangle {
+		case "certblob":
+			// an SSH *certificate* blob presented as a plain public key of the
+			// named type (the text tag is not authoritative for the parser)
+			signer, err := ssh.NewSignerFromSigner(vKey("p256", "c10certsigner"))
+			if err != nil {
+				panic(err)
+			}
+			sp, err := ssh.NewPublicKey(vKey("p256", "c10certkey").Public())
+			if err != nil {
+				panic(err)
+			}
+			sc := &ssh.Certificate{Key: sp, CertType: ssh.UserCert, ValidPrincipals: []string{"x"}, ValidBefore: ssh.CertTimeInfinity}
+			if err := sc.SignCert(rand.Reader, signer); err != nil {
+				panic(err)
+			}
+			tag := strings.SplitN(line, " ", 2)[0]
+			line = tag + " " + base64.StdEncoding.EncodeToString(sc.Marshal()) + "\n"
 		case "sshtype":
 			parts := strings.SplitN(line, " ", 2)
 			other := "ssh-ed25519"
@@ -412,7 +429,7 @@ func c10Check(c c10Case) *vResult {
 	if mangled && resp.Code >= 500 && c.Mangle != "long" {
 		// a malformed key is a client error too; but only flag encodings that are
 		// certainly not a valid strong key
-		if certKey == nil && (c.Mangle == "empty" || c.Mangle == "garbage" || c.Mangle == "truncate") {
+		if certKey == nil && (c.Mangle == "empty" || c.Mangle == "garbage" || c.Mangle == "truncate" || c.Mangle == "certblob") {
 			res.violate("malformed-key-5xx:"+c.Path, "malformed key (%s) answered with status %d, want a client error", c.Mangle, resp.Code)
 		}
 	}
@@ -426,6 +443,6 @@ func c10PKIXSafe(pub crypto.PublicKey) []byte {
 
 func TestVerifC10Keys(t *testing.T) {
 	vRunRapid(t,
-		"rapid: 20 key specs (RSA 512/1024/1536/2040/2047/2048/2049/3072/4096, exponents 3/17/65535/65537, P-224/256/384/521, Ed25519, DSA 1024, X25519) x 14 encodings manglings (none, truncate, bit flip, trailing bytes, empty, garbage, wrong PEM type, mismatched SSH type, re-tagged, no PEM, base64 padding, 70 kB) x 6 issuing paths in each path's wire form; non-trivial = the request reached the handler in that wire form; distinct = (key spec, path, mangling)",
+		"rapid: 20 key specs (RSA 512/1024/1536/2040/2047/2048/2049/3072/4096, exponents 3/17/65535/65537, P-224/256/384/521, Ed25519, DSA 1024, X25519) x 15 encoding manglings (none, SSH certificate blob as key, truncate, bit flip, trailing bytes, empty, garbage, wrong PEM type, mismatched SSH type, re-tagged, no PEM, base64 padding, 70 kB) x 6 issuing paths in each path's wire form; non-trivial = the request reached the handler in that wire form; distinct = (key spec, path, mangling)",
 		c10Gen, c10Check)
 }
